@@ -716,3 +716,34 @@ def offset_origin(v, size_ok):
                 if c_ == 1 and len(k_) == 1 and size_ok(k_[0]):
                     return o
     return None
+
+
+def image_delegation(ctx, rule='R5', only=None):
+    """Tilemap::image -> Cel::image -> AsepriteFile::layer_image, Frame::image -> frame_image: each returns exactly what the next one
+    returns, for its own (file, id), and nothing else in the body gets hold of the image"""
+    fx = ctx.fx
+    simple = {
+        'asefile::tilemap::Tilemap::image': ('asefile::cel::Cel::image', [(1, ['cel'])]),
+        'asefile::file::Frame::image': ('asefile::file::AsepriteFile::frame_image', [(1, ['file']), (1, ['index'])]),
+        'asefile::cel::Cel::image': ('asefile::file::AsepriteFile::layer_image', [(1, ['file']), (1, ['cel_id'])]),
+    }
+    for fn, (callee, argspec) in simple.items():
+        if only is not None and fn not in only:
+            continue
+        b = ctx.anchor(fn)
+        if b is None:
+            continue
+        t = res(b).ret()
+        ok = t[0] == 'call' and t[1] == callee and len(t[2]) == len(argspec) and all(
+            is_param_path(strip_casts(a), i, ns) for a, (i, ns) in zip(t[2], argspec))
+        ctx.inst(rule, fn, ok, 'returns %s; must be exactly %s(%s)' % (show(t), callee.split('::')[-1],
+                 ', '.join('self.' + '.'.join(ns) for _, ns in argspec)), b.span, key=fn + '|R5|delegate')
+        # .. and hands it on untouched: nothing else in the body gets hold of the image (seed C19-h normalised transparent pixels in
+        # Cel::image only, so the frame of a single cel and the cel's image differ where alpha is 0)
+        for c in q.calls(b):
+            cn = q.callee_name(c)
+            if cn != callee and any(q.contains(x, t) for x in q.arg_terms(c)):
+                ctx.inst(rule, fn + '#postprocess', False, '%s passes the image it got from %s to %s before returning it; the delegating accessors '
+                         'must return the shared routine\'s image untouched' % (fn.split('asefile::')[-1], callee.split('::')[-1], cn), c.span,
+                         key=ctx.key(fn, rule, 'touch', cn))
+
